@@ -263,7 +263,9 @@ class Dispatcher:
         self._job_next_operation_index = [0] * self.instance.num_jobs
         self._job_next_available_time = [0] * self.instance.num_jobs
         self._cache = {}
-        for subscriber in self.subscribers:
+        # Iterate over a copy: an observer may unsubscribe (or subscribe
+        # another observer) while it is being notified.
+        for subscriber in list(self.subscribers):
             subscriber.reset()
 
     def dispatch(
@@ -357,8 +359,10 @@ class Dispatcher:
         self._job_next_available_time[job_id] = end_time
         self._cache = {}
 
-        # Notify subscribers
-        for subscriber in self.subscribers:
+        # Notify subscribers. Iterate over a copy: an observer may unsubscribe
+        # (or subscribe another observer) while it is being notified, which
+        # would otherwise make the loop skip the next subscriber.
+        for subscriber in list(self.subscribers):
             subscriber.update(scheduled_operation)
 
     def create_or_get_observer(
